@@ -869,7 +869,9 @@ func main() {
 			"stopWithoutSaving after a random operation, a clean Stop, or a database image cut inside an import (after a block's data batch / before its head-marker batch); " +
 			"then NewBlockChain on the image + ancient dir and re-import of the remaining canonical blocks. A malformed stream has unknown-ancestor imports, absent blocks, " +
 			"freezes above the head and cut points that are never reached. Non-trivial = the restart repaired the head (head block after restart differs from the stored marker) " +
-			"or the crash image was cut inside an import.",
+			"or the crash image was cut inside an import. A multi-session stream runs the node 2..8 times on one database over chains of 20..175 blocks (mostly beyond the 128 " +
+			"in-memory layers), each run importing 0/1/many blocks and ending in a clean Stop, a crash or an image cut (clean and crash alternating in half of the cases), with a " +
+			"restart, pathdb's disk-layer-id / state-history-head check and a re-import of the lost blocks after every run; non-trivial there = a repair happened or a crash followed a clean shutdown.",
 		Gen:         gen,
 		Run:         run,
 		CaseTimeout: 120 * time.Second,
